@@ -5,6 +5,7 @@ import (
 	"go/token"
 	"go/types"
 	"golang.org/x/tools/go/ssa/ssautil"
+	"os"
 	"sort"
 	"strings"
 
@@ -588,7 +589,7 @@ func (x *Exec) applyContract(st *State, ins ssa.Instruction, t callTarget, c *ss
 		x.frameCheck(st, ins, "*", "", "", "the whole heap (callee "+shortName(t.name)+" has no modifies clause)")
 		st.havocAll(t.name)
 		x.assumeGlobalInv(st)
-	x.assumeGlobalInv(st)
+		x.assumeGlobalInv(st)
 	} else {
 		x.curCallee = t.fn
 		for _, loc := range k.Modifies {
@@ -635,6 +636,9 @@ func (x *Exec) applyContract(st *State, ins ssa.Instruction, t callTarget, c *ss
 	sc2 := x.specCtx(st, st.heap, pre, env)
 	x.applyGhostSets(st, k, sc2)
 	for _, en := range k.Ensures {
+		if os.Getenv("VERIF_DEBUG") != "" {
+			fmt.Fprintf(os.Stderr, "assume post of %s in %s: %s (results %v)\n", t.name, x.fx.name, en.Text, sig.Results())
+		}
 		st.assume(sc2.evalHyp(en.E))
 	}
 	if canaryKey != "" {
